@@ -155,7 +155,7 @@ Lemma hier_allowed c Q n s s2 :
     ((is_top (qparent s) = true /\ dn = 1%nat) \/
      (forall m j, below Q m j n -> Z.of_nat (j + dn) <= max_depth c)).
 Proof.
-  intros H Hmax Hp2. unfold validate_hier in H.
+  intros H Hmax Hp2. unfold validate_hier, validate_hier_with in H.
   destruct (qparent s) as [p|] eqn:Hp.
   2:{ exists 1%nat. split; [|split; [lia|by left]].
       eapply reach_top; [by rewrite lookup_insert|by rewrite Hp2]. }
@@ -261,11 +261,17 @@ Qed.
 Lemma allowed_eq v : allowed v = true -> v = VAllowed.
 Proof. by destruct v. Qed.
 
+(* a terminating queue (other than root) has no children: a DELETE is only admitted for a queue
+   without children, and (third fix) a terminating queue is refused as a new parent *)
+Definition TermInv (Q : queues) : Prop :=
+  forall n s, Q !! n = Some s -> n <> root -> qterm s = true ->
+  forall m sm, Q !! m = Some sm -> qparent sm <> Some n.
+
 (* ---------- every admitted request keeps the shape ---------- *)
 
 Lemma hier_root c Q s : validate_hier c Q root s = VAllowed -> qparent s = None.
 Proof.
-  unfold validate_hier. destruct (qparent s); [|done]. by rewrite bool_decide_eq_true_2.
+  unfold validate_hier, validate_hier_with. destruct (qparent s); [|done]. by rewrite bool_decide_eq_true_2.
 Qed.
 
 Lemma root_inv_step c Q r :
@@ -280,13 +286,17 @@ Proof.
   - destruct (Q !! n) as [o|] eqn:Hn; [|by eauto].
     destruct (decide (n = root)) as [->|Hne]; [|exists sr; by rewrite lookup_insert_ne].
     rewrite Hsr in Hn. inversion Hn; subst o.
-    exists (with_status (qalloc sr) (qstate sr) s). rewrite lookup_insert. split; [done|]. simpl.
+    exists (with_status (qalloc sr) (qstate sr) (qterm sr) s). rewrite lookup_insert. split; [done|]. simpl.
     destruct (decide (qparent sr = qparent s)) as [Heq|Hne]; [congruence|].
     apply admit_cu_allowed in Hv as (_ & Hh & _). by apply (hier_root c Q), Hh.
   - apply admit_delete_allowed in Hv as (Hr & _). exists sr. by rewrite lookup_delete_ne.
-  - by eauto.
-  - destruct (negb (bool_decide (n = root)) && negb (bool_decide (n = default_q))) eqn:Hg; [|by eauto].
-    apply andb_true_iff in Hg as [Hgr Hgd]. apply negb_true_iff, bool_decide_eq_false in Hgr, Hgd.
+  - destruct (Q !! n) as [o|] eqn:Hn; [|by eauto].
+    destruct (decide (n = root)) as [->|Hne]; [|exists sr; by rewrite lookup_insert_ne].
+    rewrite Hsr in Hn. inversion Hn; subst o. eexists. rewrite lookup_insert. split; [done|]. done.
+  - destruct (Q !! n) as [o|] eqn:Hn; [|by eauto].
+    destruct (qterm o && negb (bool_decide (n = root)) && negb (bool_decide (n = default_q))) eqn:Hg; [|by eauto].
+    apply andb_true_iff in Hg as [Hg Hgd]. apply andb_true_iff in Hg as [Hgt Hgr].
+    apply negb_true_iff, bool_decide_eq_false in Hgr, Hgd.
     exists sr. by rewrite lookup_delete_ne.
   - destruct (Q !! n) as [o|] eqn:Hn; [|by eauto].
     destruct (decide (n = root)) as [->|Hne]; [|exists sr; by rewrite lookup_insert_ne].
@@ -294,15 +304,15 @@ Proof.
 Qed.
 
 Lemma shape_step c Q r :
-  1 <= max_depth c -> req_safe Q r -> ShapeInv c Q -> ShapeInv c (apply_if_admitted c Q r).
+  1 <= max_depth c -> TermInv Q -> ShapeInv c Q -> ShapeInv c (apply_if_admitted c Q r).
 Proof.
-  intros Hmax Hsafe [Hroot Hinv]. split; [by apply root_inv_step|]. unfold apply_if_admitted.
+  intros Hmax Hterm [Hroot Hinv]. split; [by apply root_inv_step|]. unfold apply_if_admitted.
   destruct (allowed (verdict_of c Q r)) eqn:Hv; [|done]. apply allowed_eq in Hv.
   destruct r as [n s|n s|n|n|n|n a st]; simpl in *.
   - (* CREATE *)
     destruct (Q !! n) as [o|] eqn:Hn; [done|].
     apply admit_cu_allowed in Hv as (_ & Hh & _). specialize (Hh I).
-    destruct (hier_allowed c Q n s (with_status 0 0 s) Hh Hmax eq_refl) as (dn & Hdn & Hle & _).
+    destruct (hier_allowed c Q n s (with_status 0 0 false s) Hh Hmax eq_refl) as (dn & Hdn & Hle & _).
     intros m sm Hm Hmr. destruct (decide (m = n)) as [->|Hne]; [by exists dn|].
     rewrite lookup_insert_ne in Hm by done.
     destruct (Hinv _ _ Hm Hmr) as (k & Hk & Hkle). exists k. split; [|done].
@@ -316,7 +326,7 @@ Proof.
     destruct (decide (qparent o = qparent s)) as [Heq|Hne].
     + exists k. split; [|done]. eapply reach_same_parent; eauto.
     + apply admit_cu_allowed in Hv as (_ & Hh & _). specialize (Hh Hne).
-      destruct (hier_allowed c Q n s (with_status (qalloc o) (qstate o) s) Hh Hmax eq_refl) as (dn & Hdn & Hle & Hcase).
+      destruct (hier_allowed c Q n s (with_status (qalloc o) (qstate o) (qterm o) s) Hh Hmax eq_refl) as (dn & Hdn & Hle & Hcase).
       destruct Hcase as [[_ ->]|Hbelow].
       * destruct (reach_reparent_top _ _ _ _ _ Hdn Hk) as (k' & Hk' & Hle'). exists k'. split; [done|lia].
       * destruct (reach_reparent _ _ _ _ _ _ Hdn Hk) as [Hk'|(j & Hb & Hk')].
@@ -327,12 +337,19 @@ Proof.
     intros m sm Hm Hmr. apply lookup_delete_Some in Hm as [Hne Hm].
     destruct (Hinv _ _ Hm Hmr) as (k & Hk & Hkle). exists k. split; [|done].
     apply reach_delete_leaf; [|done..]. intros x sx Hx. by eapply children_nil.
-  - done.
-  - destruct (negb (bool_decide (n = root)) && negb (bool_decide (n = default_q))) eqn:Hg; [|done].
-    apply andb_true_iff in Hg as [Hgr Hgd]. apply negb_true_iff, bool_decide_eq_false in Hgr, Hgd.
+  - destruct (Q !! n) as [o|] eqn:Hn; [|done].
+    intros m sm Hm Hmr.
+    assert (exists so, Q !! m = Some so) as [so Hso].
+    { destruct (decide (m = n)) as [->|Hne]; [by exists o|]. rewrite lookup_insert_ne in Hm by done. by exists sm. }
+    destruct (Hinv _ _ Hso Hmr) as (k & Hk & Hkle). exists k. split; [|done].
+    eapply reach_same_parent; eauto.
+  - destruct (Q !! n) as [o|] eqn:Hn; [|done].
+    destruct (qterm o && negb (bool_decide (n = root)) && negb (bool_decide (n = default_q))) eqn:Hg; [|done].
+    apply andb_true_iff in Hg as [Hg Hgd]. apply andb_true_iff in Hg as [Hgt Hgr].
+    apply negb_true_iff, bool_decide_eq_false in Hgr, Hgd.
     intros m sm Hm Hmr. apply lookup_delete_Some in Hm as [Hne Hm].
     destruct (Hinv _ _ Hm Hmr) as (k & Hk & Hkle). exists k. split; [|done].
-    apply reach_delete_leaf; [|done..]. intros x sx Hx. eapply children_nil; [exact Hsafe|exact Hx].
+    apply reach_delete_leaf; [|done..]. by apply (Hterm n o Hn Hgr Hgt).
   - (* status update *)
     destruct (Q !! n) as [o|] eqn:Hn; [|done].
     intros m sm Hm Hmr.
@@ -350,12 +367,7 @@ Proof.
   apply IH. by apply Hstep.
 Qed.
 
-Theorem shape_history c rs : forall Q0,
-  1 <= max_depth c -> safe_history c Q0 rs -> ShapeInv c Q0 -> ShapeInv c (run_history c Q0 rs).
-Proof.
-  unfold run_history. induction rs as [|r rs IH]; intros Q0 Hmax Hsafe H0; simpl; [done|].
-  destruct Hsafe as [Hr Hrest]. apply IH; [done..|]. by apply shape_step.
-Qed.
+
 
 Lemma reach_no_self_parent Q n s k :
   reach Q n k -> Q !! n = Some s -> n <> root -> qparent s <> Some n.
@@ -437,7 +449,7 @@ Proof.
     destruct (qdes s !! d) as [x|]; [|done]. apply bool_decide_eq_true in Hg. eauto.
 Qed.
 
-Lemma QueueOk_with_alloc a st s : QueueOk s -> QueueOk (with_status a st s).
+Lemma QueueOk_with_alloc a st t s : QueueOk s -> QueueOk (with_status a st t s).
 Proof. done. Qed.
 
 Lemma per_queue_step c Q r : PerQueueInv Q -> PerQueueInv (apply_if_admitted c Q r).
@@ -452,8 +464,10 @@ Proof.
     intros m sm Hm. apply lookup_insert_Some in Hm as [[_ <-]|[_ Hm]]; [|by eapply Hinv].
     by apply QueueOk_with_alloc, spec_ok_QueueOk.
   - intros m sm Hm. apply lookup_delete_Some in Hm as [_ Hm]. by eapply Hinv.
-  - done.
-  - destruct (negb (bool_decide (n = root)) && negb (bool_decide (n = default_q))); [|done].
+  - destruct (Q !! n) as [o|] eqn:Hn; [|done].
+    intros m sm Hm. apply lookup_insert_Some in Hm as [[_ <-]|[_ Hm]]; [|by eapply Hinv].
+    apply QueueOk_with_alloc. by eapply Hinv.
+  - destruct (Q !! n) as [o|] eqn:Hn; [|done]. destruct (qterm o && negb (bool_decide (n = root)) && negb (bool_decide (n = default_q))); [|done].
     intros m sm Hm. apply lookup_delete_Some in Hm as [_ Hm]. by eapply Hinv.
   - destruct (Q !! n) as [o|] eqn:Hn; [|done].
     intros m sm Hm. apply lookup_insert_Some in Hm as [[_ <-]|[_ Hm]]; [|by eapply Hinv].
@@ -816,41 +830,48 @@ Proof.
   by apply (hier_root c Q), Hh.
 Qed.
 
+(* a status-only change of a stored queue (allocated pods, state, terminating flag) *)
+Lemma sum_status_insert c Q n o a st t :
+  ShapeInv c Q -> PerQueueInv Q -> SumInv Q -> Q !! n = Some o ->
+  SumInv (<[n := with_status a st t o]> Q).
+Proof.
+  intros Hshape Hper [Hg Hd] Hn.
+  assert (n <> root -> forall o, Q !! n = Some o -> qparent o <> Some n) as Hoself.
+  { intros Hr o' Ho. destruct Hshape as [_ Hs]. destruct (Hs _ _ Ho Hr) as (k & Hk & _).
+    by eapply reach_no_self_parent. }
+  split; apply sumF_insert; try done.
+  + intros m sm d Hm. by destruct (QueueOk_nonneg sm (Hper _ _ Hm) d) as (_ & _ & ?).
+  + intros Hr. simpl. by apply Hoself.
+  + right. by exists o.
+  + intros m sm d Hm. by destruct (QueueOk_nonneg sm (Hper _ _ Hm) d) as (_ & ? & _).
+  + intros Hr. simpl. by apply Hoself.
+  + right. by exists o.
+Qed.
+
 Lemma sum_step c Q r :
-  1 <= max_depth c -> req_safe Q r -> ShapeInv c Q -> PerQueueInv Q -> SumInv Q ->
+  1 <= max_depth c -> TermInv Q -> ShapeInv c Q -> PerQueueInv Q -> SumInv Q ->
   SumInv (apply_if_admitted c Q r).
 Proof.
-  intros Hmax Hsafe Hshape Hper Hsum.
-  pose proof (shape_step c Q r Hmax Hsafe Hshape) as Hshape'.
+  intros Hmax Hterm Hshape Hper Hsum.
+  pose proof (shape_step c Q r Hmax Hterm Hshape) as Hshape'.
   unfold apply_if_admitted in *.
   destruct (allowed (verdict_of c Q r)) eqn:Hv; [|done]. apply allowed_eq in Hv.
   destruct r as [n s|n s|n|n|n|n a st]; simpl in *.
   - destruct (Q !! n) as [o|] eqn:Hn; [done|].
-    eapply (cu_sum c Q n s (with_status 0 0 s) None); eauto.
+    eapply (cu_sum c Q n s (with_status 0 0 false s) None); eauto.
     exact (root_parent_none c Q n s None Hshape Hn Hv).
   - destruct (Q !! n) as [o|] eqn:Hn; [|done].
-    eapply (cu_sum c Q n s (with_status (qalloc o) (qstate o) s) (Some o)); eauto.
+    eapply (cu_sum c Q n s (with_status (qalloc o) (qstate o) (qterm o) s) (Some o)); eauto.
     exact (root_parent_none c Q n s (Some o) Hshape Hn Hv).
   - destruct Hsum as [Hg Hd]. split; apply sumF_delete; try done.
     + intros m sm d Hm. by destruct (QueueOk_nonneg sm (Hper _ _ Hm) d) as (_ & _ & ?).
     + intros m sm d Hm. by destruct (QueueOk_nonneg sm (Hper _ _ Hm) d) as (_ & ? & _).
-  - done.
-  - destruct (negb (bool_decide (n = root)) && negb (bool_decide (n = default_q))); [|done].
+  - destruct (Q !! n) as [o|] eqn:Hn; [|done]. by eapply sum_status_insert.
+  - destruct (Q !! n) as [o|] eqn:Hn; [|done]. destruct (qterm o && negb (bool_decide (n = root)) && negb (bool_decide (n = default_q))); [|done].
     destruct Hsum as [Hg Hd]. split; apply sumF_delete; try done.
     + intros m sm d Hm. by destruct (QueueOk_nonneg sm (Hper _ _ Hm) d) as (_ & _ & ?).
     + intros m sm d Hm. by destruct (QueueOk_nonneg sm (Hper _ _ Hm) d) as (_ & ? & _).
-  - destruct (Q !! n) as [o|] eqn:Hn; [|done].
-    destruct Hsum as [Hg Hd].
-    assert (n <> root -> forall o, Q !! n = Some o -> qparent o <> Some n) as Hoself.
-    { intros Hr o' Ho. destruct Hshape as [_ Hs]. destruct (Hs _ _ Ho Hr) as (k & Hk & _).
-      by eapply reach_no_self_parent. }
-    split; apply sumF_insert; try done.
-    + intros m sm d Hm. by destruct (QueueOk_nonneg sm (Hper _ _ Hm) d) as (_ & _ & ?).
-    + intros Hr. simpl. by apply Hoself.
-    + right. by exists o.
-    + intros m sm d Hm. by destruct (QueueOk_nonneg sm (Hper _ _ Hm) d) as (_ & ? & _).
-    + intros Hr. simpl. by apply Hoself.
-    + right. by exists o.
+  - destruct (Q !! n) as [o|] eqn:Hn; [|done]. by eapply sum_status_insert.
 Qed.
 
 (* ---------- deletion ---------- *)
@@ -906,9 +927,11 @@ Proof.
   - destruct (Q !! m); [|done]. apply lookup_insert_is_Some'. by right.
   - apply admit_delete_allowed in Hv as (Hr & Hd & _). rewrite lookup_delete_ne; [done|].
     destruct Hn as [-> | ->]; done.
-  - done.
-  - destruct (negb (bool_decide (m = root)) && negb (bool_decide (m = default_q))) eqn:Hg; [|done].
-    apply andb_true_iff in Hg as [Hgr Hgd]. apply negb_true_iff, bool_decide_eq_false in Hgr, Hgd.
+  - destruct (Q !! m); [|done]. apply lookup_insert_is_Some'. by right.
+  - destruct (Q !! m) as [o|]; [|done].
+    destruct (qterm o && negb (bool_decide (m = root)) && negb (bool_decide (m = default_q))) eqn:Hg; [|done].
+    apply andb_true_iff in Hg as [Hg Hgd]. apply andb_true_iff in Hg as [_ Hgr].
+    apply negb_true_iff, bool_decide_eq_false in Hgr, Hgd.
     rewrite lookup_delete_ne; [done|]. destruct Hn as [-> | ->]; done.
   - destruct (Q !! m); [|done]. apply lookup_insert_is_Some'. by right.
 Qed.
@@ -1365,20 +1388,20 @@ Proof.
 Qed.
 
 Theorem cap_step c Q r :
-  1 <= max_depth c -> req_safe Q r -> ShapeInv c Q -> CapInv Q -> CapInv (apply_if_admitted c Q r).
+  1 <= max_depth c -> TermInv Q -> ShapeInv c Q -> CapInv Q -> CapInv (apply_if_admitted c Q r).
 Proof.
-  intros Hmax Hsafe Hshape Hinv.
-  pose proof (shape_step c Q r Hmax Hsafe Hshape) as Hshape'.
+  intros Hmax Hterm Hshape Hinv.
+  pose proof (shape_step c Q r Hmax Hterm Hshape) as Hshape'.
   unfold apply_if_admitted in *.
   destruct (allowed (verdict_of c Q r)) eqn:Hv; [|done]. apply allowed_eq in Hv.
   destruct r as [n s|n s|n|n|n|n a st]; simpl in *.
   - destruct (Q !! n) as [o|] eqn:Hn; [done|].
-    eapply (cu_cap c Q n s (with_status 0 0 s) None); eauto.
+    eapply (cu_cap c Q n s (with_status 0 0 false s) None); eauto.
   - destruct (Q !! n) as [o|] eqn:Hn; [|done].
-    eapply (cu_cap c Q n s (with_status (qalloc o) (qstate o) s) (Some o)); eauto.
+    eapply (cu_cap c Q n s (with_status (qalloc o) (qstate o) (qterm o) s) (Some o)); eauto.
   - by apply cap_delete.
-  - done.
-  - destruct (negb (bool_decide (n = root)) && negb (bool_decide (n = default_q))); [|done]. by apply cap_delete.
+  - destruct (Q !! n) as [o|] eqn:Hn; [|done]. eapply cap_agree; eauto.
+  - destruct (Q !! n) as [o|] eqn:Hn; [|done]. destruct (qterm o && negb (bool_decide (n = root)) && negb (bool_decide (n = default_q))); [|done]. by apply cap_delete.
   - destruct (Q !! n) as [o|] eqn:Hn; [|done]. eapply cap_agree; eauto.
 Qed.
 
@@ -1583,11 +1606,12 @@ Qed.
 
 Lemma validate_hier_no_fuel n s : validate_hier c Q n s <> VFuel.
 Proof.
-  unfold validate_hier. destruct (qparent s) as [p|]; [|done].
+  unfold validate_hier, validate_hier_with. destruct (qparent s) as [p|]; [|done].
   case_bool_decide; [done|]. case_bool_decide; [done|]. case_bool_decide; [done|].
   pose proof (depth_walk_no_fuel (Z.to_nat (max_depth c - 1)) n (Some p)).
   destruct (depth_walk _ Q n (Some p)) as [v|rem]; [by intros ->|].
-  destruct (_ <? _)%nat; [done|]. destruct (Q !! p); [|done]. by destruct (_ && _).
+  destruct (_ <? _)%nat; [done|]. destruct (Q !! p) as [ps|]; [|done].
+  destruct (true && qterm ps); [done|]. by destruct (_ && _).
 Qed.
 
 Theorem no_fuel_verdict r : verdict_of c Q r <> VFuel.
@@ -1616,32 +1640,106 @@ End Fuel.
 
 (* ================= the invariant along histories ================= *)
 
+(* ---------- a terminating queue has no children ---------- *)
+
+Lemma hier_parent_not_term c Q n s p :
+  validate_hier c Q n s = VAllowed -> qparent s = Some p -> p <> root ->
+  p <> n /\ exists ps, Q !! p = Some ps /\ qterm ps = false.
+Proof.
+  unfold validate_hier, validate_hier_with. intros H Hp Hpr. rewrite Hp in H.
+  case_bool_decide; [done|]. rewrite (bool_decide_eq_false_2 (p = root)) in H by done.
+  case_bool_decide as Hpn; [done|]. split; [done|].
+  destruct (depth_walk _ Q n (Some p)) as [v|rem] eqn:Hw; [subst; by apply depth_walk_not_allowed in Hw|].
+  destruct (_ <? _)%nat; [done|]. destruct (Q !! p) as [ps|]; [|done]. exists ps. split; [done|].
+  destruct (qterm ps); [done|done].
+Qed.
+
+Lemma term_insert Q n s2 :
+  TermInv Q ->
+  (forall t st, Q !! t = Some st -> t <> root -> qterm st = true -> t <> n -> qparent s2 <> Some t) ->
+  (qterm s2 = true -> n <> root ->
+     qparent s2 <> Some n /\ forall m sm, Q !! m = Some sm -> m <> n -> qparent sm <> Some n) ->
+  TermInv (<[n := s2]> Q).
+Proof.
+  intros Hinv Hnew Hself t st Ht Htr Htt m sm Hm.
+  destruct (decide (t = n)) as [->|Htn].
+  - rewrite lookup_insert in Ht. inversion Ht; subst st. destruct (Hself Htt Htr) as [Hs Hk].
+    destruct (decide (m = n)) as [->|Hmn].
+    + rewrite lookup_insert in Hm. by inversion Hm; subst.
+    + rewrite lookup_insert_ne in Hm by done. by apply (Hk m sm).
+  - rewrite lookup_insert_ne in Ht by done.
+    destruct (decide (m = n)) as [->|Hmn].
+    + rewrite lookup_insert in Hm. inversion Hm; subst sm. by apply (Hnew t st).
+    + rewrite lookup_insert_ne in Hm by done. by apply (Hinv t st Ht Htr Htt m sm).
+Qed.
+
+Lemma term_delete Q n : TermInv Q -> TermInv (delete n Q).
+Proof.
+  intros Hinv t st Ht Htr Htt m sm Hm. apply lookup_delete_Some in Ht as [_ Ht], Hm as [_ Hm].
+  by apply (Hinv t st Ht Htr Htt m sm).
+Qed.
+
+Lemma term_step c Q r : TermInv Q -> TermInv (apply_if_admitted c Q r).
+Proof.
+  intros Hinv. unfold apply_if_admitted.
+  destruct (allowed (verdict_of c Q r)) eqn:Hv; [|done]. apply allowed_eq in Hv.
+  destruct r as [n s|n s|n|n|n|n a st]; simpl in *.
+  - (* CREATE: the stored object is not terminating; its parent is not terminating *)
+    destruct (Q !! n) as [o|] eqn:Hn; [done|]. apply admit_cu_allowed in Hv as (_ & Hh & _). specialize (Hh I).
+    apply term_insert; [done| |done]. simpl. intros t st Ht Htr Htt Htn Hp.
+    destruct (hier_parent_not_term c Q n s t Hh Hp Htr) as (_ & ps & Hps & Hf). congruence.
+  - (* UPDATE: keeps the flag; a new parent is not terminating *)
+    destruct (Q !! n) as [o|] eqn:Hn; [|done]. apply admit_cu_allowed in Hv as (_ & Hh & _).
+    apply term_insert; [done| |]; simpl.
+    + intros t st Ht Htr Htt Htn Hp.
+      destruct (decide (qparent o = qparent s)) as [Heq|Hne].
+      * apply (Hinv t st Ht Htr Htt n o Hn). congruence.
+      * destruct (hier_parent_not_term c Q n s t (Hh Hne) Hp Htr) as (_ & ps & Hps & Hf). congruence.
+    + intros Hto Hnr. split; [|intros m sm Hm _; by apply (Hinv n o Hn Hnr Hto m sm)].
+      intros Hp. destruct (decide (qparent o = qparent s)) as [Heq|Hne].
+      * apply (Hinv n o Hn Hnr Hto n o Hn). congruence.
+      * by destruct (hier_parent_not_term c Q n s n (Hh Hne) Hp Hnr) as (? & _).
+  - by apply term_delete.
+  - (* DELETE held by a finalizer: admitted only for a queue without children *)
+    destruct (Q !! n) as [o|] eqn:Hn; [|done].
+    apply admit_delete_allowed in Hv as (Hnr & _ & s & Hs & _ & Hkids).
+    apply term_insert; [done| |]; simpl.
+    + intros t st Ht Htr Htt Htn. by apply (Hinv t st Ht Htr Htt n o Hn).
+    + intros _ _. split; [by eapply children_nil|]. intros m sm Hm _. by eapply children_nil.
+  - destruct (Q !! n) as [o|] eqn:Hn; [|done]. destruct (_ && _); [|done]. by apply term_delete.
+  - destruct (Q !! n) as [o|] eqn:Hn; [|done].
+    apply term_insert; [done| |]; simpl.
+    + intros t st' Ht Htr Htt Htn. by apply (Hinv t st' Ht Htr Htt n o Hn).
+    + intros Hto Hnr. split; [by apply (Hinv n o Hn Hnr Hto n o Hn)|].
+      intros m sm Hm _. by apply (Hinv n o Hn Hnr Hto m sm).
+Qed.
+
 Definition TreeInv (c : cfg) (Q : queues) : Prop :=
-  ShapeInv c Q /\ PerQueueInv Q /\ SumInv Q /\ CapInv Q.
+  ShapeInv c Q /\ PerQueueInv Q /\ SumInv Q /\ CapInv Q /\ TermInv Q.
 
 Lemma tree_step c Q r :
-  1 <= max_depth c -> req_safe Q r -> TreeInv c Q -> TreeInv c (apply_if_admitted c Q r).
+  1 <= max_depth c -> TreeInv c Q -> TreeInv c (apply_if_admitted c Q r).
 Proof.
-  intros Hmax Hsafe (Hs & Hp & Hsum & Hcap). split; [|split; [|split]].
+  intros Hmax (Hs & Hp & Hsum & Hcap & Hterm). split; [|split; [|split; [|split]]].
   - by apply shape_step.
   - by apply per_queue_step.
   - by apply sum_step.
   - by apply cap_step.
+  - by apply term_step.
 Qed.
 
 Theorem tree_history c rs : forall Q0,
-  1 <= max_depth c -> safe_history c Q0 rs -> TreeInv c Q0 -> TreeInv c (run_history c Q0 rs).
+  1 <= max_depth c -> TreeInv c Q0 -> TreeInv c (run_history c Q0 rs).
 Proof.
-  unfold run_history. induction rs as [|r rs IH]; intros Q0 Hmax Hsafe H0; simpl; [done|].
-  destruct Hsafe as [Hr Hrest]. apply IH; [done..|]. by apply tree_step.
+  unfold run_history. induction rs as [|r rs IH]; intros Q0 Hmax H0; simpl; [done|].
+  apply IH; [done|]. by apply tree_step.
 Qed.
 
-(* histories without finalizer removals are safe: the theorem without the hypothesis *)
-Definition no_gone (r : req) : Prop := match r with EnvGone _ => False | _ => True end.
-
-Lemma no_gone_safe c rs : Forall no_gone rs -> forall Q, safe_history c Q rs.
+Theorem shape_history c rs : forall Q0,
+  1 <= max_depth c -> TermInv Q0 -> ShapeInv c Q0 -> ShapeInv c (run_history c Q0 rs).
 Proof.
-  induction 1 as [|r rs Hr Hrs IH]; intros Q; simpl; [done|]. split; [by destruct r|apply IH].
+  unfold run_history. induction rs as [|r rs IH]; intros Q0 Hmax Ht H0; simpl; [done|].
+  apply IH; [done|by apply term_step|by apply shape_step].
 Qed.
 
 (* Status (allocated pods, state Open / Closed / Closing / Unknown) is no part of any clause:
@@ -1650,22 +1748,31 @@ Qed.
 Corollary tree_status_update c Q n a st :
   1 <= max_depth c -> TreeInv c Q -> TreeInv c (apply_req Q (EnvStatus n a st)).
 Proof.
-  intros Hmax H. pose proof (tree_step c Q (EnvStatus n a st) Hmax I H) as Hs.
+  intros Hmax H. pose proof (tree_step c Q (EnvStatus n a st) Hmax H) as Hs.
   unfold apply_if_admitted in Hs. simpl in *. destruct (Q !! n); simpl in Hs; done.
+Qed.
+
+Lemma term_okb_sound Q : term_okb Q = true -> TermInv Q.
+Proof.
+  unfold term_okb. rewrite map_allb_spec. intros H n s Hn Hr Ht m sm Hm Hp.
+  specialize (H _ _ Hn). rewrite (bool_decide_eq_false_2 (n = root)), Ht in H by done. simpl in H.
+  rewrite forallb_forall in H.
+  assert (In (m, sm) (map_to_list Q)) as Hin by by apply elem_of_list_In, elem_of_map_to_list.
+  specialize (H _ Hin). simpl in H. apply negb_true_iff, bool_decide_eq_false in H. done.
 Qed.
 
 Lemma tree_okb_sound c Q : tree_okb c Q = true -> TreeInv c Q.
 Proof.
-  unfold tree_okb. rewrite !andb_true_iff. intros [[[Hs Hp] Hsum] Hcap].
+  unfold tree_okb. rewrite !andb_true_iff. intros [[[[Hs Hp] Hsum] Hcap] Hterm].
   split; [by apply shape_okb_sound|]. split; [by apply per_okb_sound|].
-  split; [by apply sums_okb_sound|by apply caps_okb_sound].
+  split; [by apply sums_okb_sound|]. split; [by apply caps_okb_sound|by apply term_okb_sound].
 Qed.
 
 (* ================= non-vacuity and the record of the defects ================= *)
 
 Definition cpu_l (v : Z) : list (positive * Z) := [(cpu_d, v)].
 Definition q_ (p : option positive) (c d g : list (positive * Z)) : qspec :=
-  mkQ p 0 0 (list_to_map c) (list_to_map d) (list_to_map g).
+  mkQ p 0 0 false (list_to_map c) (list_to_map d) (list_to_map g).
 
 (* root <- 3 (cpu cap 8000, deserved 6000, guarantee 4000) <- 4 <- 5 ; default *)
 Definition ex_cfg : cfg := mkCfg 5 true true.
@@ -1711,7 +1818,7 @@ Theorem delete_allocated_without_flag_refuted :
                   verdict_of c Q (Delete n) = VAllowed /\ (apply_if_admitted c Q (Delete n)) !! n = None.
 Proof.
   exists default_cfg, (apply_req ex_Q (EnvStatus 5%positive 3 (-1))), 5%positive,
-         (with_status 3 0 (q_ (Some 4%positive) [] (cpu_l 1000) (cpu_l 1000))).
+         (with_status 3 0 false (q_ (Some 4%positive) [] (cpu_l 1000) (cpu_l 1000))).
   split; [apply tree_okb_sound; by vm_compute|]. split; [done|]. split; [by vm_compute|].
   split; [done|]. split; by vm_compute.
 Qed.
@@ -1795,25 +1902,31 @@ Proof.
   intros Hs. pose proof (shape_capacity_ready _ _ Hs) as Hr. by vm_compute in Hr.
 Qed.
 
-(* The one history that breaks the tree with serialised admissions (known finding
-   C10-child-under-terminating-parent): DELETE of p (held by a finalizer) is admitted, the webhook then
-   admits a CREATE under the terminating p, the finalizer is removed: the child's parent is gone. *)
+(* The fourth defect, repaired by the fourth fix (a terminating queue takes no new children): the
+   validation as it was admits a CREATE under a queue whose DELETE was admitted and whose finalizer is
+   pending; when the finalizer is removed the child's parent is gone. *)
 Definition term_Q : queues :=
-  list_to_map [(1, q_ None [] [] []); (3, q_ (Some 1) [] [] [])]%positive.
+  list_to_map [(1, q_ None [] [] []); (3, with_status 0 0 true (q_ (Some 1) [] [] []))]%positive.
 Definition term_history : list req :=
   [DeleteFin 3; Create 4 (q_ (Some 3) [] [] []); EnvGone 3]%positive.
 
 Theorem terminating_parent_dangling_refuted :
-  exists c Q rs, TreeInv c Q /\ 1 <= max_depth c /\
-    verdicts c Q rs = [VAllowed; VAllowed; VAllowed] /\
-    ~ safe_history c Q rs /\ ~ ShapeInv c (run_history c Q rs) /\ capacity_ready (run_history c Q rs) = false.
+  exists c Q n s p ps, TreeInv c Q /\ 1 <= max_depth c /\ Q !! p = Some ps /\ qterm ps = true /\
+    qparent s = Some p /\ validate_hier_preterm c Q n s = VAllowed /\
+    ~ ShapeInv c (delete p (<[n := s]> Q)) /\ capacity_ready (delete p (<[n := s]> Q)) = false.
 Proof.
-  exists default_cfg, term_Q, term_history.
-  split; [apply tree_okb_sound; by vm_compute|]. split; [done|]. split; [by vm_compute|].
-  split; [|split; [|by vm_compute]].
-  - simpl. intros (_ & _ & H & _). by vm_compute in H.
-  - intros Hs. pose proof (shape_capacity_ready _ _ Hs) as Hr. by vm_compute in Hr.
+  exists default_cfg, term_Q, 4%positive, (q_ (Some 3%positive) [] [] []), 3%positive,
+         (with_status 0 0 true (q_ (Some 1%positive) [] [] [])).
+  split; [apply tree_okb_sound; by vm_compute|]. split; [done|]. split; [by vm_compute|]. split; [done|].
+  split; [done|]. split; [by vm_compute|]. split; [|by vm_compute].
+  intros Hs. pose proof (shape_capacity_ready _ _ Hs) as Hr. by vm_compute in Hr.
 Qed.
+
+(* the current code refuses the CREATE, and the whole history keeps the tree *)
+Example postfix_terminating_parent_refused :
+  verdicts default_cfg (list_to_map [(1, q_ None [] [] []); (3, q_ (Some 1) [] [] [])])%positive term_history
+  = [VAllowed; VParentTerminating; VAllowed].
+Proof. by vm_compute. Qed.
 
 (* DELETE of a queue that carries a finalizer is validated exactly like DELETE *)
 Lemma delete_fin_guard c Q n :
